@@ -121,7 +121,8 @@ def run(ctx):
                 if i == 0 and not confirm(ctx, hx, case, sig):
                     case = long_case(tr, ln) or case
                 ctx.monitor_fail.append({"what": what, "signature": sig, "case": case})
-        if mismatches and not by_sig:
+        # (a known finding reproduced by the corpus must not hide a disagreement between model and SDK)
+        if mismatches and not [s for s in by_sig if s not in (F4_SIG, "crafted-record " + F4_SIG)]:
             ctx.corr_broken.append("model and SDK disagree on ids / guard decisions (%d lines), first:\n%s" % (totals.get("mismatches", 0), "\n".join(mismatches[:5])))
         elif mismatches:
             ctx.notes["mismatches"] = mismatches[:10]
